@@ -54,6 +54,8 @@ func (c04) Thresholds(tier string) map[string]int64 {
 		"cell:first:expression":      1000,
 		"surrounding-whitespace":     2000,
 		"node-shown-twice":           500,
+		"large-option-group":         150,
+		"long-line":                  300,
 		"inline:unary-on-literal":    800,
 	}
 	for _, pos := range c04Positions {
@@ -174,6 +176,10 @@ func (p c04) Run(c *core.Ctx) {
 		if r.Chance(1, 4) {
 			st := &hast.Stmt{K: hast.SOptions, ID: id}
 			k := r.Range(1, 5)
+			if r.Chance(1, 25) {
+				k = r.Range(9, 70) // more options than any fixed-size buffer
+				c.Feature("large-option-group")
+			}
 			conds := 0
 			for j := 0; j < k; j++ {
 				parts, nt := mkLine(false)
@@ -221,6 +227,16 @@ func (p c04) Run(c *core.Ctx) {
 			body = append(body, &hast.Stmt{K: hast.SLine, Parts: []hast.Part{hast.Lit(fmt.Sprintf("sep%d", id))}, ID: id})
 		} else {
 			parts, nt := mkLine(false)
+			if r.Chance(1, 40) {
+				// a long line: 20-120 generated texts joined by a harmless separator (thousands of characters,
+				// dozens of inline expressions)
+				for k := r.Range(20, 120); k > 0; k-- {
+					more, _ := mkLine(true)
+					parts = append(parts, hast.Lit(" x "))
+					parts = append(parts, more...)
+				}
+				c.Feature("long-line")
+			}
 			st := &hast.Stmt{K: hast.SLine, Parts: parts, Tags: c04TagList(r), ID: id}
 			nontrivial[st] = nt
 			c.Feature("lines")
